@@ -9,7 +9,9 @@ import (
 
 // NewUnlimited returns schedule that generates unlimited ops for passed duration.
 func NewUnlimited(duration time.Duration) core.Schedule {
-	return &unlimitedSchedule{duration: duration, finish: atomic.NewTime(time.Now())}
+	// finish is in the far future until the real finish time is stored on start,
+	// so that Left() can't report 0 between MarkStarted and that store.
+	return &unlimitedSchedule{duration: duration, finish: atomic.NewTime(time.Unix(1<<40, 0))}
 }
 
 type UnlimitedConfig struct {
